@@ -8,3 +8,11 @@ CHECKS = {
             'trusted: the reference evaluator (mc/refsem.py, DESIGN appendix A); constructs the documentation does not decide are kept out of the language and listed in the evidence',
             'explicit enumeration of programs x inputs against a reference model, every model trace replayed on the implementation'),
 }
+CHECKS['C05'] = ('model_checking',
+    'reference-model conformance by bounded exhaustive enumeration: token-sequence scope bodies placed in 11 cut-scope contexts with 1..2 cuts at every position x all inputs over a 2-token alphabet up to length 6/7, against the evaluator encoding the documented cut equivalences, plus a cut-removal differential on inputs the cut does not prune',
+    'trusted: the reference evaluator; cuts in bare groups, lookaheads and skip-to are outside the language (documentation and code disagree on a bare group)',
+    'explicit enumeration of programs x inputs against a reference model, every model trace replayed on the implementation')
+CHECKS['C04'] = ('model_checking',
+    'A: exhaustive re-parse of three enumerated corpora under 9 alternative configurations (memo off, capacity 1 entry per line, no pruning at cuts, trace, colour, parseinfo, combinations); B: deviation-bounded stateless exploration of memo-eviction faults injected at BoundedDict.get (<=1 quick / <=2 thorough evictions per parse); C: explicit-state BFS of BoundedDict against a list model',
+    'trusted: the eviction seam (a subclass of BoundedDict installed in tatsu.contexts.core from the harness); outcome = (status, AST modulo parseinfo, error class)',
+    'deviation-bounded fault exploration + exhaustive configuration lattice + explicit-state BFS against a model')
